@@ -4,16 +4,51 @@
 The relmod normalisers are nine near-identical families (App, Mixin, Ep, Event, Stmt, Param, Type, Field, View);
 the contracts are written once here and expanded, so that the families stay in step. The generated file is what the
 verifier reads; this script is only how it was typed."""
-import sys
-
-def meta(x):
-    return ", ".join(f"s.{p}.{x}, elems(s.{p}.{x})" for p in ("Tag", "Anno", "Src.Anno", "Src"))
-
-def row(slc):
-    return f"s.{slc}, elems(s.{slc})"
 
 out = []
 w = out.append
+
+PFX = ("Tag", "Anno", "Src.Anno", "Src")
+
+
+def meta_slices(x):
+    return [f"{p}.{x}" for p in PFX]
+
+
+def mods(*slcs):
+    return ", ".join(f"s.{x}, elems(s.{x})" for x in slcs)
+
+
+def owned(*slcs):
+    """the slice still lives in the array it had at entry, or in one allocated since (append-only growth)"""
+    return " && ".join(f"(base(s.{x}) == old(base(s.{x})) || fresh(s.{x}))" for x in slcs)
+
+
+def kept(slc):
+    return f"forall(i, 0, old(len(s.{slc})), s.{slc}[i] == old(s.{slc}[i]))"
+
+
+def last(slc):
+    return f"s.{slc}[len(s.{slc})-1]"
+
+
+def head(fn, requires, slices, wellformed=None):
+    """`s != nil` is the caller's business; everything else in `requires` is about the model being well-formed (no nil
+    application, name, statement ... anywhere), which callers can only pass on, not establish."""
+    w(f"//@ func {fn}")
+    parts = [p.strip() for p in requires.split("&&")]
+    own = [p for p in parts if p == "s != nil" or p.startswith("cap(")]
+    model = [p for p in parts if p not in own]
+    if wellformed:
+        model.append(wellformed)
+    w(f"//@   requires [schema] {' && '.join(own)}")
+    if model:
+        w(f"//@   requires [model-wellformed] {' && '.join(model)}")
+    w(f"//@   modifies {mods(*slices)}")
+    w("//@   perwrite")
+    w(f"//@   ensures [rows-live-in-own-arrays] {owned(*slices)}")
+
+
 w("""//go:build verif
 
 // Contracts for the deductive verifier in /verif (govc). Comment-only: this file adds no code.
@@ -21,25 +56,27 @@ w("""//go:build verif
 package relmod
 
 // ---- C17: the relational image has one row per construct, and nothing else changes
+//
+// Every normaliser is `perwrite`: each of its writes, and each effect of a callee, must hit either an object allocated
+// during the call or a location listed under `modifies` (the Schema's row slices and their backing arrays). The model
+// (*sysl.Module and everything below it) and every position path that already exists are therefore never written.
 
-// Helpers that only read the model and build fresh values (they may panic on attribute shapes they do not know).
+// Helpers that only read the model and build fresh values. tags / attrToValue panic on attribute shapes they do not
+// know: those explicit panics are obligations of the panic class (known findings of C17).
 //@ func tags
 //@   pure
-//@   maypanic
 //@ func annos
 //@   pure
-//@   maypanic
 //@   ensures result != nil
 //@ func relmodSourceContexts
 //@   pure
 //@   ensures [one-per-context] len(result) == len(contexts)
 //@   loop 0 invariant [count] len(srcs) == rangeindex + 1 && rangeindex + 1 <= len(contexts)
+//@   loop 0 invariant [own-array] base(srcs) == 0 || fresh(srcs)
 //@ func relmodSourceContext
 //@   pure
-//@   maypanic
 //@ func parseFieldType
 //@   pure
-//@   maypanic
 //@ func parseRestPath
 //@   pure
 //@   ensures [never-fails] result1 == nil
@@ -51,46 +88,212 @@ package relmod
 
 # ---- meta families: tags, annotations, annotation source contexts, source contexts
 families = {
-    # X: (function, params-nonnil, owner attr expr, extra row fields {RowField: expr})
-    "App": ("normalizeAppMeta", "app", "app.Attrs", {"AppName": "app.Name.Part"}),
-    "Mixin": ("normalizeMixinMeta", "mixin", "mixin.Attrs", {"AppName": "app.Name.Part", "MixinName": "mixin.Name.Part"}),
-    "Ep": ("normalizeEndpointMeta", "ep", "ep.Attrs", {"AppName": "app.Name.Part", "EpName": "ep.Name"}),
-    "Event": ("normalizeEventMeta", "event", "event.Attrs", {"AppName": "app.Name.Part", "EventName": "event.Name"}),
-    "Stmt": ("normalizeStatementMeta", "stmt", "stmt.Attrs", {"AppName": "app.Name.Part", "EpName": "ep.Name", "StmtIndex": "stmtIndex"}),
-    "Param": ("normalizeParamMeta", "param", "param.Attrs", {"AppName": "app.Name.Part", "EpName": "ep.Name", "ParamName": "paramName", "ParamLoc": "loc", "ParamIndex": "index"}),
-    "Type": ("normalizeTypeMeta", "typ", "typ.Attrs", {"AppName": "app.Name.Part", "TypeName": "typeName"}),
-    "Field": ("normalizeFieldMeta", "field", "field.Attrs", {"AppName": "app.Name.Part", "TypeName": "typeName", "FieldName": "fieldName"}),
-    "View": ("normalizeViewMeta", "view", "view.Attrs", {"AppName": "app.Name.Part", "ViewName": "viewName"}),
+    "App": ("normalizeAppMeta", "s != nil && app != nil && app.Name != nil"),
+    "Mixin": ("normalizeMixinMeta", "s != nil && app != nil && mixin != nil && app.Name != nil && mixin.Name != nil"),
+    "Ep": ("normalizeEndpointMeta", "s != nil && app != nil && ep != nil && app.Name != nil"),
+    "Event": ("normalizeEventMeta", "s != nil && app != nil && event != nil && app.Name != nil"),
+    "Stmt": ("normalizeStatementMeta", "s != nil && app != nil && ep != nil && stmt != nil && app.Name != nil"),
+    "Param": ("normalizeParamMeta", "s != nil && app != nil && ep != nil && param != nil && app.Name != nil"),
+    "Type": ("normalizeTypeMeta", "s != nil && app != nil && typ != nil && app.Name != nil"),
+    "Field": ("normalizeFieldMeta", "s != nil && app != nil && field != nil && app.Name != nil"),
+    "View": ("normalizeViewMeta", "s != nil && app != nil && view != nil && app.Name != nil"),
 }
-nonnil = {
-    "App": "s != nil && app != nil && app.Name != nil",
-    "Mixin": "s != nil && app != nil && mixin != nil && app.Name != nil && mixin.Name != nil",
-    "Ep": "s != nil && app != nil && ep != nil && app.Name != nil",
-    "Event": "s != nil && app != nil && event != nil && app.Name != nil",
-    "Stmt": "s != nil && app != nil && ep != nil && stmt != nil && app.Name != nil",
-    "Param": "s != nil && app != nil && ep != nil && param != nil && app.Name != nil",
-    "Type": "s != nil && app != nil && typ != nil && app.Name != nil",
-    "Field": "s != nil && app != nil && field != nil && app.Name != nil",
-    "View": "s != nil && app != nil && view != nil && app.Name != nil",
-}
-w("// Tags, annotations and source contexts of one construct: one tag row per tag, one annotation row per annotation,")
-w("// each carrying the owner's key columns; the rows already present are kept and nothing else is written.")
-for x, (fn, owner, attrs, cols) in families.items():
-    w(f"//@ func {fn}")
-    w(f"//@   requires {nonnil[x]}")
-    w(f"//@   modifies {meta(x)}")
-    w(f"//@   mark @after:arrai/relmod.tags#1 tags")
-    w(f"//@   mark @after:arrai/relmod.annos#1 annos")
+nonnil = {k: v[1] for k, v in families.items()}
+w("// Tags, annotations and source contexts of one construct: one tag row per tag, one annotation row per annotation;")
+w("// the rows already present are kept and nothing else is written.")
+for x, (fn, req) in families.items():
+    head(fn, req, meta_slices(x))
+    w("//@   mark @after:arrai/relmod.tags#1 tags")
+    w("//@   mark @after:arrai/relmod.annos#1 annos")
     w(f"//@   ensures [one-row-per-tag] len(s.Tag.{x}) == old(len(s.Tag.{x})) + len(at(\"tags\", callresult))")
     w(f"//@   ensures [one-row-per-annotation] len(s.Anno.{x}) == old(len(s.Anno.{x})) + len(at(\"annos\", callresult))")
-    w(f"//@   ensures [tag-rows-kept] forall(i, 0, old(len(s.Tag.{x})), s.Tag.{x}[i] == old(s.Tag.{x}[i]))")
-    w(f"//@   ensures [annotation-rows-kept] forall(i, 0, old(len(s.Anno.{x})), s.Anno.{x}[i] == old(s.Anno.{x}[i]))")
+    w(f"//@   ensures [tag-rows-kept] {kept('Tag.' + x)}")
+    w(f"//@   ensures [annotation-rows-kept] {kept('Anno.' + x)}")
     w(f"//@   loop 0 invariant [tags-so-far] len(s.Tag.{x}) == old(len(s.Tag.{x})) + rangeindex + 1 && rangeindex + 1 <= len(tags)")
-    w(f"//@   loop 0 invariant [tag-rows-kept] forall(i, 0, old(len(s.Tag.{x})), s.Tag.{x}[i] == old(s.Tag.{x}[i]))")
-    w(f"//@   loop 0 invariant [annotation-rows-untouched] forall(i, 0, old(len(s.Anno.{x})), s.Anno.{x}[i] == old(s.Anno.{x}[i]))")
+    w(f"//@   loop 0 invariant [tag-rows-kept] {kept('Tag.' + x)}")
+    w(f"//@   loop 0 invariant [annotation-rows-untouched] {kept('Anno.' + x)}")
+    w(f"//@   loop 0 invariant [rows-live-in-own-arrays] {owned(*meta_slices(x))}")
     w(f"//@   loop 1 invariant [annotations-so-far] len(s.Anno.{x}) == old(len(s.Anno.{x})) + rangeindex + 1")
-    w(f"//@   loop 1 invariant [annotation-rows-kept] forall(i, 0, old(len(s.Anno.{x})), s.Anno.{x}[i] == old(s.Anno.{x}[i]))")
+    w(f"//@   loop 1 invariant [annotation-rows-kept] {kept('Anno.' + x)}")
     w(f"//@   loop 1 invariant [tags-done] len(s.Tag.{x}) == old(len(s.Tag.{x})) + len(tags)")
-    w(f"//@   loop 1 invariant [tag-rows-still-kept] forall(i, 0, old(len(s.Tag.{x})), s.Tag.{x}[i] == old(s.Tag.{x}[i]))")
+    w(f"//@   loop 1 invariant [tag-rows-still-kept] {kept('Tag.' + x)}")
+    w(f"//@   loop 1 invariant [rows-live-in-own-arrays] {owned(*meta_slices(x))}")
     w("")
+
+# ---- row functions
+w("// One row per construct, carrying the construct's own key columns; earlier rows are kept.")
+head("normalizeMixin", nonnil["Mixin"], ["Mixin"] + meta_slices("Mixin"))
+w(f"//@   ensures [one-row] len(s.Mixin) == old(len(s.Mixin)) + 1 && {last('Mixin')}.AppName == old(app.Name.Part) && {last('Mixin')}.MixinName == old(mixin.Name.Part)")
+w(f"//@   ensures [rows-kept] {kept('Mixin')}")
+w("")
+head("normalizeView", nonnil["View"], ["View"] + meta_slices("View"))
+w(f"//@   ensures [one-row] len(s.View) == old(len(s.View)) + 1 && {last('View')}.AppName == old(app.Name.Part) && {last('View')}.ViewName == viewName")
+w(f"//@   ensures [rows-kept] {kept('View')}")
+w("")
+head("normalizeField", nonnil["Field"], ["Field"] + meta_slices("Field"))
+w(f"//@   ensures [one-row] len(s.Field) == old(len(s.Field)) + 1 && {last('Field')}.AppName == old(app.Name.Part) && {last('Field')}.TypeName == typeName && {last('Field')}.FieldName == fieldName && {last('Field')}.FieldOpt == old(field.Opt)")
+w(f"//@   ensures [rows-kept] {kept('Field')}")
+w("")
+
+ALIAS_KINDS = ["Primitive_", "Sequence", "Set", "TypeRef"]
+
+
+def tkind(k):
+    return f'tagof(old(typ.Type)) == typeid(\"*sysl.Type_{k}\")'
+
+
+alias_cond = " || ".join(tkind(k) for k in ALIAS_KINDS)
+TYPE_SLICES = ["Type", "Table", "Alias", "Enum", "Field"] + meta_slices("Type") + meta_slices("Field")
+w("// A type gives one Type row, plus one Table / Alias / Enum row according to its kind, plus one Field row per field.")
+head("normalizeType", nonnil["Type"], TYPE_SLICES)
+w(f"//@   ensures [one-type-row] len(s.Type) == old(len(s.Type)) + 1 && {last('Type')}.AppName == old(app.Name.Part) && {last('Type')}.TypeName == typeName && {last('Type')}.TypeOpt == old(typ.Opt)")
+w(f"//@   ensures [type-rows-kept] {kept('Type')}")
+w(f"//@   ensures [table-row-iff-relation] len(s.Table) == old(len(s.Table)) + ite({tkind('Relation_')}, 1, 0)")
+w(f"//@   ensures [enum-row-iff-enum] len(s.Enum) == old(len(s.Enum)) + ite({tkind('Enum_')}, 1, 0)")
+w(f"//@   ensures [alias-row-iff-alias-kind] len(s.Alias) == old(len(s.Alias)) + ite({alias_cond}, 1, 0)")
+w("//@   ensures [one-field-row-per-field] len(s.Field) == old(len(s.Field)) + len(fields)")
+w("//@   assert @call:arrai/relmod.normalizeField [own-field] arg0 == s && arg1 == app && arg2 == typeName && arg3 == field && arg4 == fieldName")
+w("//@   loop 0 invariant [fields-so-far] len(s.Field) == old(len(s.Field)) + rangeindex + 1")
+w(f"//@   loop 0 invariant [type-row-stays] len(s.Type) == old(len(s.Type)) + 1 && {last('Type')}.AppName == old(app.Name.Part) && {last('Type')}.TypeName == typeName && {last('Type')}.TypeOpt == old(typ.Opt)")
+w(f"//@   loop 0 invariant [type-rows-stay] {kept('Type')}")
+w(f"//@   loop 0 invariant [kind-rows-stay] len(s.Table) == old(len(s.Table)) + ite({tkind('Relation_')}, 1, 0) && len(s.Enum) == old(len(s.Enum)) + ite({tkind('Enum_')}, 1, 0) && len(s.Alias) == old(len(s.Alias)) + ite({alias_cond}, 1, 0)")
+w(f"//@   loop 0 invariant [rows-live-in-own-arrays] {owned(*TYPE_SLICES)}")
+w("")
+
+PARAM_SLICES = ["Param"] + meta_slices("Param")
+w("// A parameter gives one Param row with its name, position and location; a nil type is the 'any' primitive.")
+head("normalizeParam", "s != nil && app != nil && ep != nil && app.Name != nil", PARAM_SLICES)
+w(f"//@   ensures [one-row] len(s.Param) == old(len(s.Param)) + 1 && {last('Param')}.AppName == old(app.Name.Part) && {last('Param')}.EpName == old(ep.Name) && {last('Param')}.ParamName == paramName && {last('Param')}.ParamIndex == paramIndex")
+w(f"//@   ensures [location-kept-when-given] paramLoc != \"\" ==> {last('Param')}.ParamLoc == paramLoc")
+w(f"//@   ensures [optionality-kept] paramType != nil ==> {last('Param')}.ParamOpt == old(paramType.Opt)")
+w(f"//@   ensures [untyped-is-any] paramType == nil ==> !{last('Param')}.ParamOpt && tagof({last('Param')}.ParamType) == typeid(\"relmod.TypePrimitive\")")
+w(f"//@   ensures [rows-kept] {kept('Param')}")
+w("")
+
+EVENT_SLICES = ["Event"] + meta_slices("Event") + PARAM_SLICES
+w("// An event gives one Event row and one Param row per parameter, in order.")
+head("normalizeEvent", nonnil["Event"], EVENT_SLICES, wellformed="forall(j, 0, len(event.Param), event.Param[j] != nil)")
+w(f"//@   ensures [one-row] len(s.Event) == old(len(s.Event)) + 1 && {last('Event')}.AppName == old(app.Name.Part) && {last('Event')}.EventName == old(event.Name)")
+w(f"//@   ensures [rows-kept] {kept('Event')}")
+w("//@   ensures [one-param-row-per-param] len(s.Param) == old(len(s.Param)) + old(len(event.Param))")
+w("//@   assert @call:arrai/relmod.normalizeParam [own-param] arg0 == s && arg1 == app && arg2 == event && arg3 == p.Name && arg4 == p.Type && arg5 == pi && arg6 == \"\"")
+w("//@   loop 0 invariant [params-so-far] len(s.Param) == old(len(s.Param)) + rangeindex + 1 && rangeindex + 1 <= len(event.Param)")
+w(f"//@   loop 0 invariant [event-row-stays] len(s.Event) == old(len(s.Event)) + 1 && {last('Event')}.AppName == old(app.Name.Part) && {last('Event')}.EventName == old(event.Name)")
+w(f"//@   loop 0 invariant [event-rows-stay] {kept('Event')}")
+w(f"//@   loop 0 invariant [rows-live-in-own-arrays] {owned(*EVENT_SLICES)}")
+w("")
+
+STMT_SLICES = ["Stmt"] + meta_slices("Stmt")
+CONTAINERS = ["Cond", "Loop", "LoopN", "Foreach", "Group"]
+
+
+def skind(k):
+    return f'tagof(old(stmt.Stmt)) == typeid(\"*sysl.Statement_{k}\")'
+
+
+w("// A statement gives one Stmt row carrying the position path it was handed (an alt gives one row per choice, each")
+w("// with its own fresh path), every container kind hands each of its children to normalizeStatement with the")
+w("// container's own path, and no position path that already exists is ever written (no []int array is listed).")
+head("normalizeStatement", "s != nil && app != nil && ep != nil && app.Name != nil && cap(stmtIndex) == len(stmtIndex)", STMT_SLICES, wellformed="stmt != nil")
+w("//@   ghostset @store:F.relmod.Schema.Stmt row")
+w("//@   ghostset @call:arrai/relmod.normalizeStatement$2 descended")
+w("//@   assert @store:F.relmod.Schema.Stmt [one-own-row] len(stored) == len(target.Stmt) + 1 && stored[len(stored)-1].AppName == app.Name.Part && stored[len(stored)-1].EpName == ep.Name")
+w("//@   assert @store:F.relmod.Schema.Stmt [row-carries-own-path] stored[len(stored)-1].StmtIndex == stmtIndex || (stmt.GetAlt() != nil && len(stored[len(stored)-1].StmtIndex) == len(stmtIndex) + 1 && fresh(base(stored[len(stored)-1].StmtIndex)) && forall(j, 0, len(stmtIndex), stored[len(stored)-1].StmtIndex[j] == stmtIndex[j]))")
+kids = " || ".join(f"(stmt.Get{k}() != nil && arg0 == stmt.Get{k}().Stmt && arg1 == stmtIndex)" for k in CONTAINERS)
+w(f"//@   assert @call:arrai/relmod.normalizeStatement$2 [children-of-own-container] {kids} || (stmt.GetAlt() != nil && arg0 == choice.Stmt && len(arg1) == len(stmtIndex) + 1 && arg1[len(stmtIndex)] == i)")
+w("//@   ensures [row-unless-placeholder-or-alt] result == nil && !(old(stmt.GetAction()) != nil && old(stmt.GetAction().Action) == \"...\") && old(stmt.GetAlt()) == nil ==> ghost(\"row\")")
+w(f"//@   ensures [containers-descended] result == nil && old({' || '.join(f'stmt.Get{k}() != nil' for k in CONTAINERS)}) ==> ghost(\"descended\")")
+w(f"//@   loop 0 invariant [rows-live-in-own-arrays] {owned(*STMT_SLICES)}")
+w("//@   errprop normalizeStatement$2")
+w("//@   errprop parseReturnPayload")
+w("")
+w("// The children loop: child i of the container is normalised with the path parent+[i], held in a slice of its own.")
+head("normalizeStatement$2", "s != nil && app != nil && ep != nil && app.Name != nil", STMT_SLICES, wellformed="forall(j, 0, len(children), children[j] != nil)")
+w("//@   ghostclear @iter:0 visited")
+w("//@   ghostset @call:arrai/relmod.normalizeStatement visited")
+w("//@   assert @call:arrai/relmod.normalizeStatement [child-gets-own-fresh-path] arg1 == s && arg2 == app && arg3 == ep && arg4 == child && fresh(base(arg5)) && cap(arg5) == len(arg5) && len(arg5) == len(parentIndex) + 1 && arg5[len(parentIndex)] == i && forall(j, 0, len(parentIndex), arg5[j] == parentIndex[j])")
+w(f"//@   loop 0 invariant [rows-live-in-own-arrays] {owned(*STMT_SLICES)}")
+w("//@   loop 0 step [every-child-normalised] ghost(\"visited\")")
+w("//@   errprop normalizeStatement")
+w("")
+
+EP_SLICES = ["Ep"] + meta_slices("Ep") + EVENT_SLICES + STMT_SLICES
+ep_row = f"len(s.Ep) == old(len(s.Ep)) + 1 && {last('Ep')}.AppName == old(app.Name.Part) && {last('Ep')}.EpName == old(ep.Name)"
+w("// An endpoint: the '...' placeholder gives nothing, a pub/sub endpoint gives an Event row, anything else an Ep row,")
+w("// one Param row per method / path / query parameter, and its statements with the one-element paths [i].")
+head("normalizeEndpoint", nonnil["Ep"], EP_SLICES)
+w("//@   ensures [placeholder-gives-nothing] old(ep.Name) == \"...\" ==> result == nil && len(s.Ep) == old(len(s.Ep)) && len(s.Event) == old(len(s.Event)) && len(s.Param) == old(len(s.Param)) && len(s.Stmt) == old(len(s.Stmt))")
+w("//@   ensures [pubsub-is-an-event] old(ep.Name) != \"...\" && old(ep.IsPubsub) ==> result == nil && len(s.Event) == old(len(s.Event)) + 1 && len(s.Ep) == old(len(s.Ep))")
+w(f"//@   ensures [endpoint-row] old(ep.Name) != \"...\" && !old(ep.IsPubsub) && result == nil ==> {ep_row}")
+w(f"//@   ensures [endpoint-rows-kept] {kept('Ep')}")
+w("//@   ensures [one-param-row-per-param] old(ep.Name) != \"...\" && !old(ep.IsPubsub) && result == nil ==> len(s.Param) == old(len(s.Param)) + old(len(ep.Param)) + ite(old(ep.RestParams) != nil, old(len(ep.RestParams.UrlParam)) + old(len(ep.RestParams.QueryParam)), 0)")
+w("//@   assert @call:arrai/relmod.normalizeParam [own-param] arg0 == s && arg1 == app && arg2 == ep && arg3 == p.Name && arg4 == p.Type && arg5 == pi")
+w("//@   assert @call:arrai/relmod.normalizeStatement [top-level-statement-path] arg1 == s && arg2 == app && arg3 == ep && arg4 == stmt && fresh(base(arg5)) && len(arg5) == 1 && cap(arg5) == 1 && arg5[0] == i")
+w("//@   ghostclear @iter:3 visited")
+w("//@   ghostset @call:arrai/relmod.normalizeStatement visited")
+w("//@   loop 3 step [every-statement-normalised] ghost(\"visited\")")
+for n, (coll, done) in enumerate([
+        ("ep.Param", "0"),
+        ("ep.RestParams.UrlParam", "len(ep.Param)"),
+        ("ep.RestParams.QueryParam", "len(ep.Param) + len(ep.RestParams.UrlParam)")]):
+    w(f"//@   loop {n} invariant [params-so-far] len(s.Param) == old(len(s.Param)) + {done} + rangeindex + 1 && rangeindex + 1 <= len({coll})")
+    w(f"//@   loop {n} invariant [endpoint-row-stays] {ep_row}")
+    w(f"//@   loop {n} invariant [endpoint-rows-stay] {kept('Ep')}")
+    w(f"//@   loop {n} invariant [rows-live-in-own-arrays] {owned(*EP_SLICES)}")
+w("//@   loop 3 invariant [params-done] len(s.Param) == old(len(s.Param)) + len(ep.Param) + ite(ep.RestParams != nil, len(ep.RestParams.UrlParam) + len(ep.RestParams.QueryParam), 0)")
+w(f"//@   loop 3 invariant [endpoint-row-stays] {ep_row}")
+w(f"//@   loop 3 invariant [endpoint-rows-stay] {kept('Ep')}")
+w(f"//@   loop 3 invariant [rows-live-in-own-arrays] {owned(*EP_SLICES)}")
+w("//@   errprop parseRestPath")
+w("//@   errprop normalizeStatement")
+w("")
+
+APP_SLICES = ["App"] + meta_slices("App") + ["Mixin"] + meta_slices("Mixin") + EP_SLICES + \
+    [x for x in TYPE_SLICES] + ["View"] + meta_slices("View")
+app_row = f"len(s.App) == old(len(s.App)) + 1 && {last('App')}.AppName == old(app.Name.Part) && {last('App')}.AppLongName == old(app.LongName)"
+w("// An application gives one App row, and every mixin, endpoint, type and view of it is handed to its normaliser.")
+head("normalizeApp", nonnil["App"], APP_SLICES)
+w(f"//@   ensures [one-row] result == nil ==> {app_row}")
+w(f"//@   ensures [rows-kept] {kept('App')}")
+w("//@   ensures [one-mixin-row-per-mixin] result == nil ==> len(s.Mixin) == old(len(s.Mixin)) + old(len(app.Mixin2))")
+w("//@   ensures [one-view-row-per-view] result == nil ==> len(s.View) == old(len(s.View)) + old(len(app.Views))")
+w("//@   ensures [one-type-row-per-type] result == nil ==> len(s.Type) == old(len(s.Type)) + old(len(app.Types))")
+w("//@   assert @call:arrai/relmod.normalizeMixin [own-mixin] arg0 == s && arg1 == app && arg2 == mixin")
+w("//@   assert @call:arrai/relmod.normalizeEndpoint [own-endpoint] arg1 == s && arg2 == app && arg3 == ep")
+w("//@   assert @call:arrai/relmod.normalizeType [own-type] arg0 == s && arg1 == app && arg2 == typ && arg3 == typeName")
+w("//@   assert @call:arrai/relmod.normalizeView [own-view] arg0 == s && arg1 == app && arg2 == view && arg3 == viewName")
+w("//@   ghostclear @iter:1 visited")
+w("//@   ghostset @call:arrai/relmod.normalizeEndpoint visited")
+w("//@   loop 1 step [every-endpoint-normalised] ghost(\"visited\")")
+counts = {
+    0: "len(s.Mixin) == old(len(s.Mixin)) + rangeindex + 1 && rangeindex + 1 <= len(app.Mixin2)",
+    1: "len(s.Mixin) == old(len(s.Mixin)) + len(app.Mixin2)",
+    2: "len(s.Mixin) == old(len(s.Mixin)) + len(app.Mixin2) && len(s.Type) == old(len(s.Type)) + rangeindex + 1",
+    3: "len(s.Mixin) == old(len(s.Mixin)) + len(app.Mixin2) && len(s.Type) == old(len(s.Type)) + len(app.Types) && len(s.View) == old(len(s.View)) + rangeindex + 1",
+}
+for n in range(4):
+    w(f"//@   loop {n} invariant [counts-so-far] {counts[n]}")
+    w(f"//@   loop {n} invariant [app-row-stays] {app_row}")
+    w(f"//@   loop {n} invariant [app-rows-stay] {kept('App')}")
+    w(f"//@   loop {n} invariant [rows-live-in-own-arrays] {owned(*APP_SLICES)}")
+w("//@   errprop normalizeEndpoint")
+w("")
+
+w("// The module: imports first, then every application in alphabetical order of its map key.")
+w("//@ func normalizeModule")
+w("//@   requires [schema] s != nil")
+w("//@   requires [model-wellformed] m != nil")
+w("//@   assert @call:arrai/relmod.normalizeApp [own-application] arg1 == s && arg2 == m.Apps[name]")
+w("//@   ghostclear @iter:1 visited")
+w("//@   ghostset @call:arrai/relmod.normalizeApp visited")
+w("//@   loop 1 step [every-application-normalised] ghost(\"visited\")")
+w("//@   errprop normalizeApp")
+w("")
+w("//@ func Normalize")
+w("//@   requires [model-wellformed] m != nil")
+w("//@   ensures [schema-or-error] (result1 == nil) == (result0 != nil)")
+w("//@   errprop withPayloadParser")
+w("//@   errprop normalizeModule")
+w("")
+
 open("/repo/pkg/arrai/relmod/zz_verif_contracts.go", "w").write("\n".join(out) + "\n")
